@@ -114,6 +114,13 @@ def run(chk: Check) -> None:
     gen_docs.AVOID = set()
     optsets = all_option_sets(rng, len(docs))
     cases = [{"doc": d, "opts": o} for d, o in zip(docs, optsets)]
+    # every heading of the C10 vocabulary with cleanups on: the cleanup has to reach its fixed point in one pass (fix b925259: a bold heading
+    # whose content was bold-italic needed two)
+    import c10
+    for i in range(0, len(c10.HEADINGS), 8):
+        for ls in ("preserve", "loose"):
+            cases.append({"doc": "\n\n".join(c10.HEADINGS[i:i + 8]) + "\n",
+                          "opts": dict(width=88, semantic=False, cleanups=True, smartquotes=False, ellipses=False, list_spacing=ls)})
     for fid, (doc, o) in REPRO.items():
         cases.append({"doc": doc, "opts": dict(o), "repro": fid})
     docports.run_fill_port(chk, cases, name="fill_markdown pass 1")
